@@ -909,7 +909,11 @@ func (cfg *Config) quotedElemFields(pe *syntax.ParamExp) ([]string, error) {
 			case Indexed:
 				return vr.indexedKeys(), nil
 			case Associative:
-				return slices.Collect(maps.Keys(vr.Map)), nil
+				keys := slices.Collect(maps.Keys(vr.Map))
+				if keys == nil {
+					keys = []string{} // no fields at all, rather than an empty one
+				}
+				return keys, nil
 			case String:
 				if vr.IsSet() {
 					// A scalar has the single key zero.
@@ -950,6 +954,9 @@ func (cfg *Config) quotedElemFields(pe *syntax.ParamExp) ([]string, error) {
 		}
 		if star {
 			return []string{cfg.ifsJoin(elems)}, nil
+		}
+		if elems == nil {
+			elems = []string{} // no fields at all, rather than an empty one
 		}
 		return elems, nil
 	}
